@@ -33,9 +33,11 @@ def taper_cases(tier, seed):
     rot, sc, f = geom.variant(seed)
     lam = geom.C_MININEC / f
     mags = (0., 0.4e-3, 0.99e-3, 1.01e-3, 2.5e-3, 3e-2)
-    for ttype in (1, 2, 3):
+    for ttype in (1, 2, 3, 4):          # 4: helix whose radius shrinks towards end 2 (segments get shorter)
         for env in ('free', 'ideal'):
             for bend in (0, 1):
+                if ttype == 4 and env == 'ideal' and bend == 0:
+                    continue        # a helix starts on z = 0: over ground that end is grounded
                 for order in (0, 1, 2):
                     for rev in (0, 1):
                         yield dict(taper=ttype, env=env, f=f, lam=lam, bend=bend, order=order, rev=rev, mags=mags)
@@ -321,10 +323,18 @@ def eval_taper(c):
     r = 2e-4 * lam
     z0 = 0.12 * lam
     A, B = np.array([0., 0., z0]), np.array([0.27, 0.03, z0 + 0.02 * lam / 1.0]) * np.array([lam, lam, 1.])
-    boom = geom.wire(B, A, 7, r, taper=[{1: 2, 2: 1, 3: 3}[c['taper']]]) if c['rev'] else geom.wire(A, B, 7, r, taper=[c['taper']])
+    if c['taper'] == 4:
+        hl = 0.1 * lam
+        boom = dict(kind='helix', n=12, length=hl, turnlen=(-1 if c['rev'] else 1) * 0.05 * lam, r=r, radii=[0.03 * lam, 0.03 * lam, 0.004 * lam, 0.004 * lam])
+    else:
+        boom = geom.wire(B, A, 7, r, taper=[{1: 2, 2: 1, 3: 3}[c['taper']]]) if c['rev'] else geom.wire(A, B, 7, r, taper=[c['taper']])
     mb = geom.build(dict(f=f, env=env, wires=[boom]), sources=False, loads=False)
     lens = [sg.seg_len for sg in mb.geo[0].segments]
     lmin = min(lens)
+    if c['taper'] == 4:
+        A, B = np.array(mb.geo[0].segments[0].p1, float), np.array(mb.geo[0].segments[-1].p2, float)
+        if lens[0] < 2 * lmin:
+            return dict(viol=[('HARNESS', 'helix segments do not shrink')])
     J = B if c['bend'] else A
     u = np.array([0.36, -0.48, 0.8])
     viol, canon, nontriv = [], [], []
@@ -347,7 +357,9 @@ def eval_taper(c):
                 viol.append(('REJECTED-taper', 'valid structure rejected: %s' % e))
                 continue
             tol = 1e-3 * min(sg.seg_len for g in m.geo for sg in g.segments)
-            junc, gnd, free, amb = topo.clusters(case, ground, tol=tol)
+            # end clustering (for the helix: on its true end points taken from its segment table)
+            cw = [dict(p1=list(A), p2=list(B), n=w_['n']) if w_.get('kind') == 'helix' else w_ for w_ in ws]
+            junc, gnd, free, amb = topo.clusters(dict(case, wires=cw), ground, tol=tol)
             N = sum(w['n'] - 1 for w in ws) + len(gnd) + sum(len(x) - 1 for x in junc)
             name = 'taper%d %s boom end %d%s, listing %d: arm %.3g and base %s shortest segments (%.4g) away' % (
                 c['taper'], env, c['bend'] + 1, ' (reversed)' if c['rev'] else '', c['order'], d, h, lmin)
